@@ -31,6 +31,7 @@ RULE = ('histories of attribute operations (path/files/filepaths setters and lis
         '(hash-then-every-pair-of-operations, also from a piece length of 32 MiB under an explicit '
         'maximum followed by a bound reset, and bound-assignment-across-the-other-bound followed by '
         'a re-assignment of that bound; a filter list assigned, hashed, then assigned / edited again in every way) + random (length <= 8 quick, <= 14 thorough; filter-heavy histories concentrate on one or two lists so that the same list is assigned repeatedly); '
+        'round 6: histories in which an operation FAILS HALF-WAY and the object is used again - the class of the objects is part of the case (rules of an overriding calculate_piece_size: raises / returns a rejected value for a range of sizes; the stock class with File sizes beyond the range of a float): 8 classes x hashed prefixes x 34 operations that recalculate the piece length (content assignments, in-place edits of the file, filepath and filter lists, piece_size = None) x follow-ups, the region of D09b continued after the bounds crossed, random classes; '
         'non-trivial = piece hashes were present before at least one operation other than '
         'generate/comment; distinct = distinct operation sequence.  calculate_piece_size: '
         'boundary sizes of every power of two and threshold, distinct = (size, min, max)')
@@ -113,6 +114,9 @@ MATCHERS = {
     'bound_assigned_across_other_bound': match_bound_across,
     'filepaths_in_mixed_spellings': match_mixed_spelling,
 }
+# in the continued region of D09b (the bounds crossed earlier in the history) that finding cannot excuse anything
+# further; the other open findings are what they are there too
+WEAK_MATCHERS = {k: v for k, v in MATCHERS.items() if k != 'bound_assigned_across_other_bound'}
 
 # ---------------------------------------------------------------------------------------------
 # generators
@@ -395,7 +399,7 @@ def _is2(ops):
 
 def g_files(rng):
     c = rng.random()
-    s = lambda: rng.choice(FAKE_SIZES)   # noqa
+    s = lambda: W.HUGE if rng.random() < 0.04 else rng.choice(FAKE_SIZES)   # noqa  (HUGE: the stock calculate_piece_size() raises)
     if c < 0.08:
         return []
     if c < 0.45:
@@ -428,7 +432,7 @@ def g_op(rng, cur, wide=True):
         return {'k': 'filesDel', 'i': rng.randrange(6)}
     if c == 'filesAppend':
         return {'k': 'filesAppend', 'f': [rng.choice([['N', 'c'], ['A', 'zz'], ['Foo', 'q'], ['N', 'a'], ['F5', 'g']]),
-                                          rng.choice([0, 5, K, K])]}
+                                          rng.choice([0, 5, K, K] if rng.random() < 0.93 else [W.HUGE, W.FLOAT_LIMIT])]}
     if c == 'filesClear':
         return {'k': 'filesClear'}
     if c == 'setFilepaths':
@@ -706,6 +710,135 @@ def enumerated_reassign(ctx):
     return out
 
 
+# ---------------------------------------------------------------------------------------------
+# operations that FAIL HALF-WAY and the object is used again: `_set_files` (behind path / files /
+# filepaths, their list edits and the callback of the filter lists) stores the new file list and
+# recalculates the piece length last; the recalculation fails when the class's
+# calculate_piece_size() raises (stock: a listed size beyond the range of a float; an override: any
+# exception) or returns a value the piece_size setter rejects (an override; crossed bounds = D09b).
+# `rules` describes the class (attrs_world.make_class) and is sent to the model as Env.rules.
+
+RULESETS = [
+    [],                                                                    # stock class: failures come from huge sizes
+    [{'lo': 100000, 'hi': None, 'raise': 'CalcFault'}],                     # tree A (147460), two trees combined, big files
+    [{'lo': 100000, 'hi': None, 'value': 1000}],                            # … returns a non-multiple of 16 KiB: PieceSizeError
+    [{'lo': 40000, 'hi': 60000, 'value': 4096 * K}],                        # S (49153): a value above the maximum
+    [{'lo': 1, 'hi': 40000, 'value': 0}],                                   # B (32773), A/sub (32771), small file lists
+    [{'lo': 131000, 'hi': 132000, 'raise': 'ZeroDivisionError'}],           # tree A without e.tmp (131076): a FILTER edit fails
+    [{'lo': 1, 'hi': None, 'value': 4 * K}],                                # a legitimate override - until the bounds exclude 64 KiB
+    [{'lo': 60000, 'hi': 100000, 'raise': 'PieceSizeError'}, {'lo': 100000, 'hi': None, 'value': -K}],   # F5 (81920) / larger
+]
+FAULT_OPS = [
+    {'k': 'setPath', 'p': R + ['A']}, {'k': 'setPath', 'p': R + ['S']}, {'k': 'setPath', 'p': R + ['B']},
+    {'k': 'setPath', 'p': R + ['F5']},
+    {'k': 'setFiles', 'fs': [[['N', 'a'], 120000], [['N', 'b'], 5]]}, {'k': 'setFiles', 'fs': [[['N', 'a'], 50000]]},
+    {'k': 'setFiles', 'fs': [[['N', 'a'], W.HUGE], [['N', 'b'], 5]]}, {'k': 'setFiles', 'fs': [[['N', 'huge'], W.FLOAT_LIMIT]]},
+    {'k': 'filesAppend', 'f': [['F5', 'g'], 120000]}, {'k': 'filesAppend', 'f': [['F5', 'huge'], W.HUGE]},
+    {'k': 'filesAppend', 'f': [['A', 'zz'], 20000]}, {'k': 'filesAppend', 'f': [['A', 'huge'], W.HUGE]},
+    {'k': 'filesAppend', 'f': [['S', 'huge'], W.HUGE]},
+    {'k': 'filesDel', 'i': 0}, {'k': 'filesDel', 'i': 1},
+    {'k': 'setFilepaths', 'ps': [R + ['A']]}, {'k': 'setFilepaths', 'ps': [R + ['S']]},
+    {'k': 'setFilepaths', 'ps': [R + ['A', 'a'], R + ['A', 'b'], R + ['A', 'sub', 'd']]},
+    {'k': 'fpAppend', 'p': R + ['B', 'x']}, {'k': 'fpAppend', 'p': R + ['A', 'a']}, {'k': 'fpAppend', 'p': R + ['S']},
+    {'k': 'fpDel', 'i': 0}, {'k': 'fpDel', 'i': 4},
+    {'k': 'globAppend', 'inc': False, 'g': ['suffix', '.tmp']}, {'k': 'globSet', 'inc': False, 'gs': [['suffix', '.tmp']]},
+    {'k': 'globIaddAttr', 'inc': False, 'gs': [['suffix', '.tmp']]},
+    {'k': 'globExtend', 'inc': False, 'held': True, 'gs': [['suffix', '.tmp'], ['suffix', 'a']]},
+    {'k': 'rxAppend', 'inc': False, 'held': False, 'p': r'\.tmp$'}, {'k': 'rxSet', 'inc': False, 'held': False, 'ps': [r'\.tmp$', r'a$']},
+    {'k': 'globAppend', 'inc': False, 'g': ['suffix', 'a']}, {'k': 'globAppend', 'inc': True, 'g': ['suffix', 'f']},
+    {'k': 'setPieceSize', 'v': None}, {'k': 'setMax', 'v': 2 * K}, {'k': 'setMin', 'v': 8 * K},
+]
+FAULT_FOLLOW = [
+    {'k': 'generate'}, {'k': 'setPath', 'p': R + ['F5']}, {'k': 'setPath', 'p': R + ['A']}, {'k': 'setPath', 'p': None},
+    {'k': 'setPieceSize', 'v': None}, {'k': 'setPieceSize', 'v': 4 * K}, {'k': 'filesClear'}, {'k': 'filesDel', 'i': 0},
+    {'k': 'filesDel', 'i': 1}, {'k': 'fpDel', 'i': 0}, {'k': 'globClear', 'inc': False},
+    {'k': 'globAppend', 'inc': False, 'g': ['suffix', 'a']}, {'k': 'globAppend', 'inc': False, 'g': ['suffix', 'huge']},
+    {'k': 'setName', 'n': 'Foo'}, {'k': 'setMax', 'v': None}, {'k': 'setMax', 'v': 2 * K},
+]
+FAULT_PREFIXES = [
+    [{'k': 'setPath', 'p': R + ['F5']}, {'k': 'setPieceSize', 'v': 3 * K}, {'k': 'generate'}],
+    [{'k': 'setPath', 'p': R + ['A']}, {'k': 'generate'}],
+    [{'k': 'setPath', 'p': R + ['S']}, {'k': 'setPieceSize', 'v': 2 * K}, {'k': 'generate'}],
+    [],
+]
+
+
+def enumerated_faults(ctx):
+    """every class of RULESETS x a hashed prefix x every operation that recalculates the piece length
+    (content assignment, in-place edit of the file / filepath / filter lists, piece_size = None, a
+    bound assignment that makes a later recalculation fail) x what the caller may do next with the
+    object that raised: hash it, assign other content, ask for a new piece size, edit the lists"""
+    out = []
+    pres = FAULT_PREFIXES if ctx.thorough else FAULT_PREFIXES[:2]
+    for ri, rules in enumerate(RULESETS):
+        for pi, pre in enumerate(pres):
+            for oi, a in enumerate(FAULT_OPS):
+                out.append((pre + [a], rules))
+                # the object is used again after the (possibly failed) operation
+                follow = FAULT_FOLLOW if ctx.thorough else [FAULT_FOLLOW[(ri + pi + oi + j * 5) % len(FAULT_FOLLOW)] for j in range(2)]
+                for b in follow:
+                    out.append((pre + [a, b], rules))
+                    if ctx.thorough or (oi + ri) % 6 == 0:
+                        out.append((pre + [a, b, {'k': 'generate'}, FAULT_OPS[(oi + 7) % len(FAULT_OPS)]], rules))
+            # two failing operations in a row, then a recovery
+            for a in FAULT_OPS[:8]:
+                out.append((pre + [a, FAULT_OPS[(FAULT_OPS.index(a) + 3) % 8], {'k': 'setPath', 'p': R + ['F5']}, {'k': 'generate'}], rules))
+    # region of D09b, continued: the bounds cross on a hashed torrent, then content changes fail
+    sp = lambda k, v: {'k': k, 'v': v}   # noqa
+    for pre in FAULT_PREFIXES[:3]:
+        for cross in ([sp('setMax', 2 * K), sp('setMin', 4 * K)], [sp('setMin', 4 * K), sp('setMax', 2 * K)],
+                      [sp('setMin', 2048 * K)], [sp('setMax', K // 2 * 2)]):
+            for a in (FAULT_OPS[:24:2] if ctx.thorough else FAULT_OPS[:24:3]) + [{'k': 'setPieceSize', 'v': None}]:
+                out.append((pre + cross + [a], []))
+                out.append((pre + cross + [a, {'k': 'generate'}], []))
+                out.append((cross + pre + [a], []))
+    return out
+
+
+def g_rules(rng):
+    r = rng.random()
+    if r < 0.2:
+        return []
+    if r < 0.45:
+        return rng.choice(RULESETS[1:])
+    outs = [{'raise': n} for n in ('CalcFault', 'ZeroDivisionError', 'KeyError', 'PieceSizeError', 'OverflowError')] + \
+           [{'value': v} for v in (1000, 0, -K, 4096 * K, K // 2, 4 * K, 2 * K, 3 * K, 5 * K // 2)]
+    rules = []
+    for _ in range(rng.choice([1, 1, 2])):
+        lo = rng.choice([1, 30000, 40000, 60000, 65000, 100000, 131000, 140000, 2 ** 30])
+        hi = rng.choice([None, None, lo + rng.choice([2000, 20000, 60000])])
+        rules.append(dict(lo=lo, hi=hi, **rng.choice(outs)))
+    return rules
+
+
+def g_fault_history(rng, maxlen):
+    """a class, content (hashed in most cases), then operations among which those that recalculate
+    the piece length are frequent - the object is used on after every failure"""
+    rules = g_rules(rng)
+    cur = new_cur()
+    ops = []
+    if rng.random() < 0.85:
+        ops.append({'k': 'setPath', 'p': rng.choice([R + ['A'], R + ['A'], R + ['F5'], R + ['S'], R + ['B']])})
+        if rng.random() < 0.3:
+            ops.append({'k': 'setPieceSize', 'v': K * rng.choice([1, 2, 3, 4])})
+        if rng.random() < 0.8:
+            ops.append({'k': 'generate'})
+    n = len(ops) + rng.randint(2, maxlen)
+    while len(ops) < n:
+        r = rng.random()
+        if r < 0.45:
+            ops.append(dict(rng.choice(FAULT_OPS)))
+        elif r < 0.6:
+            ops.append(dict(rng.choice(FAULT_FOLLOW)))
+        elif r < 0.7:
+            ops.append({'k': 'generate'})
+        elif r < 0.8:
+            ops.append(g_flist_op(rng, cur, rng.choice(['glob', 'rx']), rng.random() < 0.3, rng.random() < 0.5))
+        else:
+            ops.append(g_op(rng, cur, rng.random() < 0.3))
+    return ops, rules
+
+
 def corpus_cases(ctx):
     out = []
     d = os.path.join(common.CORPUS_DIR, 'C09')
@@ -714,7 +847,7 @@ def corpus_cases(ctx):
             if fn.endswith('.json'):
                 j = json.load(open(os.path.join(d, fn)))
                 if not _is2(j['ops']):            # two-object histories: gen_cases2
-                    out.append({'ops': j['ops'], 'src': 'corpus:' + fn})
+                    out.append({'ops': j['ops'], 'src': 'corpus:' + fn, 'rules': j.get('rules') or []})
     for f in ctx.open_findings():
         w = f.get('witness', {})
         if 'ops' in w and not _is2(w['ops']):
@@ -732,12 +865,17 @@ def gen_cases(ctx, scale=1.0):
         cases.append({'ops': ops, 'src': 'enumerated-reassign'})
     for ops in enumerated_spelling(ctx):
         cases.append({'ops': ops, 'src': 'enumerated-spelling'})
+    for ops, rules in enumerated_faults(ctx):
+        cases.append({'ops': ops, 'src': 'enumerated-faults', 'rules': rules})
     maxlen = 14 if ctx.thorough else 8
     for _ in range(int(ctx.n(2600, 110000) * scale)):
         cases.append({'ops': g_history(ctx.rng, maxlen), 'src': 'random'})
     maxlen = 12 if ctx.thorough else 8
     for _ in range(int(ctx.n(1200, 40000) * scale)):
         cases.append({'ops': g_filter_history(ctx.rng, maxlen), 'src': 'random-filters'})
+    for _ in range(int(ctx.n(700, 20000) * scale)):
+        ops, rules = g_fault_history(ctx.rng, 9 if ctx.thorough else 6)
+        cases.append({'ops': ops, 'src': 'random-faults', 'rules': rules})
     return cases
 
 
@@ -748,12 +886,14 @@ def gen_cases(ctx, scale=1.0):
 def _run_chunk(cases):
     torf = common.import_torf()
     root = W.world_root()
-    return [W.run_history(torf, c['ops'], root) for c in cases]
+    return [W.run_history(torf, c['ops'], root, rules=c.get('rules')) for c in cases]
 
 
 def _diff(model, obs):
     d = {}
     for k in COMPARE:
+        if k == 'numPieces' and obs.get(k) is None:
+            continue        # `Torrent.pieces` itself overflowed (a listed size beyond the range of a float)
         if model.get(k) != obs.get(k):
             d[k] = {'model': model.get(k), 'impl': obs.get(k)}
     if W.model_keys(model) != obs['keys']:
@@ -761,9 +901,19 @@ def _diff(model, obs):
     return d
 
 
+BATCH = 12000     # histories per round trip (driver replies and projections of a whole tier do not fit into memory)
+
+
 def evaluate(ctx, drv, cases):
-    env = W.env_json()
-    replies = drv.run([{'op': 'c09.run', 'env': env, 'ops': [W.to_driver(o) for o in c['ops']]} for c in cases])
+    for i in range(0, len(cases), BATCH):
+        _evaluate(ctx, drv, cases[i:i + BATCH])
+    # report the shortest failing history
+    ctx.violations.sort(key=lambda v: len(v['case'].get('ops', ())) if isinstance(v['case'], dict) else 0)
+    ctx.corr_breaks.sort(key=lambda v: len(v['case'].get('ops', ())) if isinstance(v['case'], dict) else 0)
+
+
+def _evaluate(ctx, drv, cases):
+    replies = drv.run([{'op': 'c09.run', 'env': W.env_json(c.get('rules')), 'ops': [W.to_driver(o) for o in c['ops']]} for c in cases])
     for rep in replies:
         rep['init'] = W.model_state(rep['init'])
         for ms in rep['steps']:
@@ -774,6 +924,8 @@ def evaluate(ctx, drv, cases):
     for c, rep, impl in zip(cases, replies, flat):
         ops = c['ops']
         case = {'ops': ops, 'src': c['src']}
+        if c.get('rules'):
+            case['rules'] = c['rules']
         msteps = rep['steps']
         had_pieces = False
         nontrivial = False
@@ -782,7 +934,7 @@ def evaluate(ctx, drv, cases):
             if pre_pieces and ops[k]['k'] not in ('generate', 'setComment'):
                 nontrivial = True
             had_pieces = had_pieces or pre_pieces
-        ctx.case(key=json.dumps(ops, sort_keys=True), nontrivial=nontrivial, kind='history/' + c['src'].split(':')[0])
+        ctx.case(key=json.dumps([ops, c.get('rules') or []], sort_keys=True), nontrivial=nontrivial, kind='history/' + c['src'].split(':')[0])
         ctx.dist['len-%02d' % len(ops)] += 1
         if not rep['initInv']:
             ctx.machinery_error('Inv fails on the initial model state although C09_inv_init is proved', case)
@@ -795,6 +947,9 @@ def evaluate(ctx, drv, cases):
         failed_batch = False
         sp_out = False
         dd_before = False
+        weak = False        # region of D09b (the bounds crossed and were not corrected at once): only the clauses
+        #                     that hold without hypothesis are judged from here on (C09_stamp_history)
+        faulted_before = False
         for k, st in enumerate(impl['steps']):
             ms = msteps[k]
             op = ops[k]
@@ -812,18 +967,33 @@ def evaluate(ctx, drv, cases):
                 ctx.machinery_error('model state violates FiltersOk although C09_filters_ok_history is proved',
                                     {'case': case, 'step': k})
                 break
+            if not ms['invS']:
+                ctx.machinery_error('model state violates InvS although C09_stamp_history is proved (no hypothesis)',
+                                    {'case': case, 'step': k})
+                break
+            if ms['hypW'] and not ms['invW']:
+                ctx.machinery_error('model state violates InvW under AllOpOk although C09_weak_history is proved',
+                                    {'case': case, 'step': k})
+                break
+            if ms['hypW'] and ms['full'] and not ms['inv']:
+                ctx.machinery_error('model state violates Inv although the tracker of C09_inv_tracked_history claims it',
+                                    {'case': case, 'step': k})
+                break
             if ms['hypC'] and not ms['inv']:
                 ctx.machinery_error('model state violates Inv under AllOkC although C09_inv_history_corrected is proved',
                                     {'case': case, 'step': k})
                 break
-            if st['dev']:
+            dev = [x for x in st['dev'] if x not in W.WEAK_IGNORED] if weak else st['dev']
+            if weak:
+                ctx.dist['bounds-crossed(D09b)/step-judged-by-the-unconditional-clauses'] += 1
+            if dev:
                 pre = impl['steps'][k - 1]['obs'] if k else impl['init']
-                observed = {'step': k, 'op': op, 'codes': st['dev'], 'res': st['res'], 'pre': pre,
+                observed = {'step': k, 'op': op, 'codes': dev, 'res': st['res'], 'pre': pre,
                             'post': st['obs'], 'hyp': ms['hypC'], 'dotdot_before': dd_now}
                 fid = ctx.violation('after operation %d (%s) the torrent violates C09: %s'
-                                    % (k, op['k'], ', '.join(st['dev'])),
+                                    % (k, op['k'], ', '.join(dev)),
                                     case, {'no deviation; model state': ms['state'], 'model res': ms['res']},
-                                    observed, finding_matchers=MATCHERS)
+                                    observed, finding_matchers=WEAK_MATCHERS if weak else MATCHERS)
                 reproduced = reproduced or (fid is not None and fid == c.get('witness'))
                 # D09b narrowed (C09_inv_corrected_step): if the deviation is the known finding and
                 # the next operation re-assigns the same bound correctively (the driver's hypC holds
@@ -835,32 +1005,56 @@ def evaluate(ctx, drv, cases):
                     if ms['res'] != st['res']:
                         d['outcome'] = {'model': ms['res'], 'impl': st['res']}
                     if d:
-                        ctx.corr_break('c09.run', {'ops': ops[:k + 1], 'src': c['src']},
+                        ctx.corr_break('c09.run', dict(case, ops=ops[:k + 1]),
                                        {'step': k, 'diff': d, 'state': ms['state'], 'res': ms['res']},
                                        {'step': k, 'state': st['obs'], 'res': st['res']})
                         break
                     continue
-                break
-            if not ms['hypC']:
-                # outside the theorem's hypothesis the implementation met the specification
+                if fid == 'D09b' and not weak:
+                    # the bounds stay crossed: the history goes on (the object is used again), judged by
+                    # what holds without hypothesis - in particular hashes must not survive a content
+                    # change whose recalculation now fails with PieceSizeError
+                    weak = True
+                    ctx.dist['bounds-crossed(D09b)/history-continued'] += 1
+                else:
+                    break
+            if sp_out:
+                # outside the model's alphabet (spellings) the implementation met the specification
                 ctx.dist['outside-hyp-but-in-spec'] += 1
                 continue
             d = _diff(ms['state'], st['obs'])
             if ms['res'] != st['res']:
                 d['outcome'] = {'model': ms['res'], 'impl': st['res']}
             if d:
-                ctx.corr_break('c09.run', {'ops': ops[:k + 1], 'src': c['src']}, {'step': k, 'diff': d, 'state': ms['state'], 'res': ms['res']},
+                ctx.corr_break('c09.run', dict(case, ops=ops[:k + 1]), {'step': k, 'diff': d, 'state': ms['state'], 'res': ms['res']},
                                {'step': k, 'state': st['obs'], 'res': st['res']})
-                _later_deviation(ctx, case, ops, impl['steps'], k)
+                _later_deviation(ctx, case, ops, impl['steps'], k, weak)
                 break
+            pre = impl['steps'][k - 1]['obs'] if k else impl['init']
+            if ms['fault']:
+                # the operation failed inside the recalculation of the piece length
+                ctx.dist['failed-recalculation/%s/%s' % (st['res'], op['k'])] += 1
+                if pre['pieces'] is not None:
+                    ctx.dist['failed-recalculation/hashes-were-present'] += 1
+                if W._content(pre)[:3] != W._content(st['obs'])[:3]:
+                    ctx.dist['failed-recalculation/file-list-changed-by-the-failed-operation'] += 1
+                if st['obs']['pl'] is None and st['obs']['size'] > 0:
+                    ctx.dist['failed-recalculation/content-left-without-piece-length(candidate-D09h)' if not c.get('rules') and not weak
+                             else 'failed-recalculation/content-left-without-piece-length'] += 1
+                if k + 1 < len(impl['steps']):
+                    ctx.dist['failed-recalculation/object-used-again'] += 1
+            elif faulted_before:
+                ctx.dist['after-a-failed-recalculation/%s' % ('full-invariant-claimed' if ms['full'] else 'weak-invariant-only')] += 1
+                if st['lenient'] != (not ms['full']) and ms['hypW']:
+                    ctx.dist['after-a-failed-recalculation/implementation-side-and-model-tracker-differ'] += 1
+            faulted_before = faulted_before or ms['fault']
             if st['obs']['ready']:
                 ctx.dist['ready-and-verified'] += 1
             f = W.flist(op)
             if f is not None:
-                failed_batch = _count_flist(ctx, f, op, st, impl['steps'][k - 1]['obs'] if k else impl['init'], failed_batch)
+                failed_batch = _count_flist(ctx, f, op, st, pre, failed_batch)
             if op['k'] in ('setMin', 'setMax') and op['v'] is None:
                 # region of the repaired D09c: a bound reset with a piece length present (clamp runs)
-                pre = impl['steps'][k - 1]['obs'] if k else impl['init']
                 if pre and pre.get('pl'):
                     ctx.dist['bound-reset-with-piece-length'] += 1
                     if op['k'] == 'setMax' and pre['pl'] > W.DEFAULT_MAX:
@@ -914,11 +1108,13 @@ def _count_flist(ctx, f, op, st, pre, failed_batch):
     return failed_batch
 
 
-def _later_deviation(ctx, case, ops, steps, k):
+def _later_deviation(ctx, case, ops, steps, k, weak=False):
     """The implementation ran the whole history whatever the model says: a deviation from the
     specification AFTER a correspondence break is still a violation with a concrete input."""
     for m in range(k + 1, len(steps)):
         st = steps[m]
+        if weak:
+            st = dict(st, dev=[x for x in st['dev'] if x not in W.WEAK_IGNORED])
         if st['dev']:
             obs = st['obs']
             ctx.violation('after operation %d (%s) the torrent violates C09: %s (the model already disagreed at operation %d)'
@@ -931,14 +1127,20 @@ def _later_deviation(ctx, case, ops, steps, k):
 def _run_chunk2(cases):
     torf = common.import_torf()
     root = W.world_root()
-    return [W.run_history2(torf, c['ops'], root) for c in cases]
+    return [W.run_history2(torf, c['ops'], root, rules=c.get('rules')) for c in cases]
 
 
 def evaluate2(ctx, drv, cases):
+    for i in range(0, len(cases), BATCH):
+        _evaluate2(ctx, drv, cases[i:i + BATCH])
+    ctx.violations.sort(key=lambda v: len(v['case'].get('ops', ())) if isinstance(v['case'], dict) else 0)
+    ctx.corr_breaks.sort(key=lambda v: len(v['case'].get('ops', ())) if isinstance(v['case'], dict) else 0)
+
+
+def _evaluate2(ctx, drv, cases):
     """two-object histories: I (both real objects, C09 clauses + independence), M (`apply2`), S (`Inv`
     on both model states under `AllOk2`, `FiltersOk` on both without hypothesis)"""
-    env = W.env_json()
-    replies = drv.run([{'op': 'c09.run2', 'env': env, 'ops': [dict(W.to_driver(o), on=int(o.get('on', 0))) if o['k'] != 'copy' else o for o in c['ops']]}
+    replies = drv.run([{'op': 'c09.run2', 'env': W.env_json(c.get('rules')), 'ops': [dict(W.to_driver(o), on=int(o.get('on', 0))) if o['k'] != 'copy' else o for o in c['ops']]}
                        for c in cases])
     results = common.pmap(_run_chunk2, common.split(cases, common.NPROC * 4))
     flat = [r for chunk in results for r in chunk]
@@ -946,6 +1148,8 @@ def evaluate2(ctx, drv, cases):
     for c, rep, impl in zip(cases, replies, flat):
         ops = c['ops']
         case = {'ops': ops, 'src': c['src']}
+        if c.get('rules'):
+            case['rules'] = c['rules']
         msteps = rep['steps']
         steps = impl['steps']
         nontrivial = any(k and steps[k - 1]['obs'] and any(o['pieces'] is not None for o in steps[k - 1]['obs'])
@@ -1000,7 +1204,7 @@ def evaluate2(ctx, drv, cases):
             if ms['res'] != st['res']:
                 d['outcome'] = {'model': ms['res'], 'impl': st['res']}
             if d:
-                ctx.corr_break('c09.run2', {'ops': ops[:k + 1], 'src': c['src']}, {'step': k, 'diff': d, 'res': ms['res']},
+                ctx.corr_break('c09.run2', dict(case, ops=ops[:k + 1]), {'step': k, 'diff': d, 'res': ms['res']},
                                {'step': k, 'states': st['obs'], 'res': st['res']})
                 _later_deviation(ctx, case, ops, steps, k)
                 break
@@ -1079,7 +1283,9 @@ def run(ctx, drv):
         'glob patterns of the forms *s and *s* (fnmatch translated by hand) and regular expressions of five shapes (escaped literal, literal$, (?i)literal$, ^literal, [class]$) in the model; an invalid regular expression is any text re.compile rejects',
         're.error is the documented exception of the regex filter lists, IndexError that of lst[i] = v; the independent files-follow-filters clause uses patterns that are insensitive to the basepath.parent/filepath prefix quirk of filter_files (the model mirrors the quirk)',
         'slice assignment / deletion on a filter list with non-negative bounds or an open end and step 1; index assignment, pop and insert with any integer; remove() is given an item of the stored type (a compiled pattern for the regex lists)',
-        'calculate_piece_size: float log2/pow modelled on integers; compared for sizes < 2^40',
+        'calculate_piece_size: float log2/pow modelled on integers; compared for sizes < 2^40; the stock method raises OverflowError from 2^1036 bytes (model: floatLimit); listed sizes in [2^40, 2^1036) are not generated',
+        'an overriding calculate_piece_size is described by size ranges (a value or an exception per range), independent of the bounds and of history; the error kind of a failing recalculation is compared with the model, it is not judged as an undocumented exception',
+        'after an operation that failed inside the recalculation "content has a piece length" is demanded again from the next completed content / piece_size assignment on (C09_inv_recovers); generate() on content without a piece length (ValueError from the hashing loop) is the consequence of that state, not a second deviation; Torrent.pieces (float division) is not compared for sizes >= 2^53',
         'generate() stores the SHA-1 chunks of the current layout (C01) - checked here by an independent re-hash of the files',
         'is_ready ⇒ verify: C02 for the verification itself; here the real verify(path) is run',
     ]
@@ -1096,16 +1302,17 @@ def search(ctx, drv):
     seeds = []
     for b in ctx.corr_breaks[:3]:
         ops = b['case'].get('ops') if isinstance(b['case'], dict) else None
+        rules = b['case'].get('rules') if isinstance(b['case'], dict) else None
         if ops:
             for a in ALPHABET:
-                seeds.append({'ops': ops + [a], 'src': 'search'})
-                seeds.append({'ops': ops + [{'k': 'generate'}, a], 'src': 'search'})
+                seeds.append({'ops': ops + [a], 'src': 'search', 'rules': rules})
+                seeds.append({'ops': ops + [{'k': 'generate'}, a], 'src': 'search', 'rules': rules})
                 for p in PREFIXES[:2]:
-                    seeds.append({'ops': p + ops[-1:] + [a], 'src': 'search'})
+                    seeds.append({'ops': p + ops[-1:] + [a], 'src': 'search', 'rules': rules})
     evaluate2(ctx, drv, [c for c in seeds if _is2(c['ops'])])
     evaluate(ctx, drv, [c for c in seeds if not _is2(c['ops']) and not any(o.get('on') for o in c['ops'])])
     if not ctx.violations:
-        evaluate(ctx, drv, [c for c in gen_cases(ctx, scale=2.0) if c['src'] in ('random', 'random-filters')])
+        evaluate(ctx, drv, [c for c in gen_cases(ctx, scale=2.0) if c['src'] in ('random', 'random-filters', 'random-faults')])
 
 
 def replay(ctx, drv, rp):
@@ -1115,6 +1322,6 @@ def replay(ctx, drv, rp):
         evaluate_calc(ctx, drv, [(cc['size'], cc['min'], cc['max'])])
     else:
         ctx.findings = []      # a replay reports the raw verdict, known findings do not mask it
-        (evaluate2 if _is2(c['ops']) else evaluate)(ctx, drv, [{'ops': c['ops'], 'src': c.get('src', 'replay')}])
+        (evaluate2 if _is2(c['ops']) else evaluate)(ctx, drv, [{'ops': c['ops'], 'src': c.get('src', 'replay'), 'rules': c.get('rules')}])
     return {'fails': bool(ctx.violations or ctx.corr_breaks), 'violations': ctx.violations,
             'correspondence_breaks': ctx.corr_breaks}
